@@ -219,3 +219,127 @@ func DriftHistories() map[string][]string {
 	out["drift-external-set-emptied-and-chains-edited"] = rt("", nil, "lset "+sip0+" hash:ip -", "lset "+sip1+" hash:ip 10.99.0.9", "drift 7")
 	return out
 }
+
+// judgeHookDels (frame of every SyncPodChains / deletePodChains call): the only jump rules of GLX-INGRESS / GLX-EGRESS a
+// call may delete are those the desired state does not contain.  A deleted `-d <ip> … -j GLX-POD-<h>` whose pod (hash h)
+// lives on this node with that address and is selected in that direction was the hook of ANOTHER pod than the one the
+// call was made for (the call for a pod never deletes a hook that pod needs).
+func (r *C15Run) judgeHookDels(step string, wd *WorldDef) {
+	for _, hd := range r.sb.Watch.TakeHookDels() {
+		r.rep.Hit("hook-deleted:" + hd.Chain)
+		if wd == nil {
+			continue
+		}
+		ingress := hd.Chain == "GLX-INGRESS"
+		addr, target := "", ""
+		for i := 0; i+1 < len(hd.Rule); i++ {
+			switch hd.Rule[i] {
+			case "-d":
+				if ingress {
+					addr = hd.Rule[i+1]
+				}
+			case "-s":
+				if !ingress {
+					addr = hd.Rule[i+1]
+				}
+			case "-j":
+				target = hd.Rule[i+1]
+			}
+		}
+		addr = strings.TrimSuffix(addr, "/32")
+		for i := range wd.C.Pods {
+			q := &wd.C.Pods[i]
+			if "GLX-POD-"+q.Hash() != target || q.Node != wd.C.Node || !q.HasIP || IPStr(q.IP) != addr || !isolated(wd.PS, q, ingress) {
+				continue
+			}
+			r.violate("pod-hook-of-other-pod-removed", fmt.Sprintf("%s: DeleteRule removed `%s` from %s although pod %s/%s "+
+				"(this node, that address) is selected by a policy in that direction: its chain is unreachable now",
+				step, strings.Join(hd.Rule, " "), hd.Chain, q.NS, q.Name))
+		}
+	}
+}
+
+// SubstringNames renames the namespaces and pods of a world so that the `<name>_<namespace>` strings of different pods
+// are substrings / prefixes / suffixes of one another (db-0_prod in db-0_prod2 and in xdb-0_prod, db_prod in xdb_prod…):
+// whatever finds a pod's rules by TEXT must not take another pod's.  Labels (incl. the `name` label of a namespace)
+// stay as they are.
+func SubstringNames(rg *rand.Rand, w *WorldDef) {
+	nsPool := []string{"prod", "prod2", "xprod"}
+	rg.Shuffle(len(nsPool), func(i, j int) { nsPool[i], nsPool[j] = nsPool[j], nsPool[i] })
+	nsMap := map[string]string{}
+	for i := range w.C.NSs {
+		if i < len(nsPool) {
+			nsMap[w.C.NSs[i].Name] = nsPool[i]
+			w.C.NSs[i].Name = nsPool[i]
+		}
+	}
+	podPool := []string{"db", "db-0", "xdb-0", "db-01", "xdb"}
+	used := map[string]bool{}
+	pods := append([]Pod{}, w.C.Pods...)
+	for i := range pods {
+		if n, ok := nsMap[pods[i].NS]; ok {
+			pods[i].NS = n
+		}
+		for _, k := range rg.Perm(len(podPool)) {
+			if !used[pods[i].NS+"/"+podPool[k]] {
+				pods[i].Name = podPool[k]
+				break
+			}
+		}
+		used[pods[i].NS+"/"+pods[i].Name] = true
+	}
+	w.C.Pods = pods
+	ps := append([]NetPol{}, w.PS...)
+	for i := range ps {
+		if n, ok := nsMap[ps[i].NS]; ok {
+			ps[i].NS = n
+		}
+	}
+	w.PS = ps
+}
+
+// SubstringHistories: pods on this node whose name_namespace strings contain one another, selected / unselected in all
+// combinations, through full syncs and through the events that make a pod unselected or delete it.
+func SubstringHistories() map[string][]string {
+	world := func(name string, lbl map[string]string, without ...string) []string {
+		o := []string{"world " + name, "ns prod name=prod", "ns prod2 name=prod2"}
+		for _, p := range [][3]string{{"prod", "db-0", "10.0.1.1"}, {"prod2", "db-0", "10.0.2.1"}, {"prod", "xdb-0", "10.0.1.2"},
+			{"prod", "db", "10.0.1.3"}, {"prod", "xdb", "10.0.1.4"}} {
+			key := p[0] + "/" + p[1]
+			skip := false
+			for _, wo := range without {
+				if wo == key {
+					skip = true
+				}
+			}
+			if !skip {
+				o = append(o, fmt.Sprintf("pod %s %s - node1 %s app=%s", p[0], p[1], p[2], lbl[key]))
+			}
+		}
+		return append(o, "pol prod y - app=s IE ns:name=prod@tcp/80 ns:name=prod2@-", "pol prod2 x - app=s I ns:name=prod@- -")
+	}
+	sel := func(keys ...string) map[string]string {
+		m := map[string]string{"prod/db-0": "u", "prod2/db-0": "u", "prod/xdb-0": "u", "prod/db": "u", "prod/xdb": "u"}
+		for _, k := range keys {
+			m[k] = "s"
+		}
+		return m
+	}
+	out := map[string][]string{}
+	long := sel("prod2/db-0", "prod/xdb-0", "prod/xdb") // the containing names are selected, the contained ones are not
+	short := sel("prod/db-0", "prod/db")                // the other way round
+	all := sel("prod/db-0", "prod2/db-0", "prod/xdb-0", "prod/db", "prod/xdb")
+	for tag, m := range map[string]map[string]string{"longer-selected": long, "shorter-selected": short, "all-selected": all} {
+		h := world("A", m)
+		out["substr-fullsync-"+tag] = append(h, "fullsync A", "fullsync A", "check A")
+	}
+	// a pod becomes unselected (relabelled) / is deleted while pods with containing names stay selected
+	h := append(world("A", all), world("B", long)...)
+	out["substr-pods-become-unselected"] = append(h, "fullsync A", "ev updpod B prod/db-0 A #pod-unselected", "ev updpod B prod/db B #pod-unselected",
+		"fullsync B", "check B")
+	h = append(world("A", all), world("B", all, "prod/db-0")...)
+	out["substr-pod-deleted"] = append(h, "fullsync A", "ev delpod B prod/db-0 A", "fullsync B", "check B")
+	h = append(world("A", long), world("B", long, "prod/db")...)
+	out["substr-unselected-pod-deleted"] = append(h, "fullsync A", "ev delpod B prod/db A", "fullsync B", "check B")
+	return out
+}
